@@ -237,6 +237,11 @@ func (w *Writer) add(rec record) error {
 	if w.lastKey >= k {
 		log.Panicf("keys must be ascending: got %q last %q", rec, w.lastRec)
 	}
+	if !w.indexEntryFits(k) {
+		// The record may be the last of its block, and then its key
+		// goes into an index block together with a block position.
+		return fmt.Errorf("reftable: key of record %v too large for block size", rec)
+	}
 	w.lastKey = k
 	w.lastRec = rec.String()
 
@@ -259,6 +264,18 @@ func (w *Writer) add(rec record) error {
 		return fmt.Errorf("reftable: record %v too large for block size", rec)
 	}
 	return nil
+}
+
+// indexEntryFits tells if an index entry for key, with any block
+// position, fits in an index block that is not the first block of the
+// table.
+func (w *Writer) indexEntryFits(key string) bool {
+	var tmp [10]byte
+	n, _ := putVarInt(tmp[:], uint64(len(key))<<3)
+	// block header, prefix length, suffix length, key, position,
+	// one restart, restart count.
+	sz := 4 + 1 + n + len(key) + len(tmp) + 3 + 2
+	return sz <= int(w.cfg.BlockSize)
 }
 
 // Close writes the footer and flushes the table to disk.
